@@ -323,6 +323,13 @@ func (cx *Ctx) oracleTrimRule(r *Report, per map[string][]hev, rule string) {
 			if name == "EditFeed" {
 				want = "(stored count − msg.LatestHistory), only when msg.LatestHistory < stored count"
 				_, g := d.factOrdered(true, "msg.LatestHistory", " < ")
+				if !g {
+					// the same condition on the difference itself: surplus := count − n; if surplus > 0
+					_, g = d.fact(true, "("+a+" > 0)")
+				}
+				if !g {
+					_, g = d.fact(false, "("+a+" <= 0)")
+				}
 				ok = hasCounter(a) && strings.HasPrefix(a, "(") && strings.HasSuffix(a, " - msg.LatestHistory)") && g
 			} else {
 				want = "((stored count − feed.LatestHistory) + 1) before adding one value"
@@ -411,6 +418,13 @@ func (cx *Ctx) c17AllResponsesCounted(r *Report, evs []hev) {
 					case *ssa.Call:
 						if bi, ok := x.Common().Value.(*ssa.Builtin); ok && bi.Name() == "append" {
 							apps = append(apps, x)
+						}
+					case *ssa.Store:
+						// out := make([]T, len(in)); out[i] = f(in[i]) fills the input as well
+						if ia, ok := x.Addr.(*ssa.IndexAddr); ok {
+							if _, isMS := ia.X.(*ssa.MakeSlice); isMS {
+								apps = append(apps, x)
+							}
 						}
 					case *ssa.MapUpdate:
 						updated[x.Map] = true
